@@ -26,12 +26,12 @@ import (
 
 // KV is a stored key.
 type KV struct {
-	Key            string
-	Value          []byte
-	CreateRev      int64
-	ModRev         int64
-	Version        int64
-	Lease          int64
+	Key       string
+	Value     []byte
+	CreateRev int64
+	ModRev    int64
+	Version   int64
+	Lease     int64
 }
 
 // Change is one key change of a commit.
@@ -62,6 +62,8 @@ type Faults struct {
 	MaxRangeBytes int
 	// OnlyWritesFail restricts error injection to writes
 	OnlyWritesFail bool
+	// BaseLatency is added to every request even when faults are disabled
+	BaseLatency time.Duration
 }
 
 type lease struct {
@@ -120,8 +122,8 @@ type Cluster struct {
 	writeSeen int
 	// FailFilter restricts the fail plan / write counting to keys with this prefix
 	FailKeyFilter func(key string) bool
-	ClusterID  uint64
-	reqSeq     int
+	ClusterID     uint64
+	reqSeq        int
 }
 
 // New creates a cluster and starts its lease-expiry task.
@@ -276,6 +278,10 @@ func (c *Cluster) request(ctx context.Context, node int, label string, write boo
 	}
 	f := c.Faults
 	s := c.Sim
+	if f.BaseLatency > 0 {
+		time.Sleep(f.BaseLatency)
+		simrt.Resume()
+	}
 	if f.Enabled && f.PDelay > 0 && s.Chance("etcd.delay", f.PDelay) {
 		d := time.Duration(1+s.Choose(100, "etcd.delay.d")) * f.MaxDelay / 100
 		s.Count("fault.etcd.delay")
@@ -1057,10 +1063,10 @@ func (c *Cluster) expirer() {
 		}
 		sort.Slice(due, func(i, j int) bool { return due[i] < due[j] })
 		for _, id := range due {
-			c.Sim.Stats["etcd.lease-expired"]++
 			c.dropLease(id, -2, "lease-expire")
 		}
 		c.mu.Unlock()
+		c.Sim.CountN("etcd.lease-expired", len(due))
 		if len(due) > 0 {
 			simrt.Yield("etcd.expirer")
 			continue
